@@ -511,15 +511,17 @@ fn word_magic(xs: &mut Xstate) -> Xresult {
             fail_pos: pos,
         });
     }
-    move_offset_checked(xs, s.end())?;
-    xs.push_data(Cell::from(s))
+    // the value is pushed first: a push refused by the stack limit must not move the cursor
+    let end = s.end();
+    xs.push_data(Cell::from(s))?;
+    move_offset_checked(xs, end)
 }
 
 fn read_bits(xs: &mut Xstate, n: usize) -> Xresult {
     let s = peek_bits(xs, n)?;
-    move_offset_checked(xs, s.end())?;
-    let val = Cell::from(s);
-    xs.push_data(val)
+    let end = s.end();
+    xs.push_data(Cell::from(s))?;
+    move_offset_checked(xs, end)
 }
 
 fn word_bitstr(xs: &mut Xstate) -> Xresult {
@@ -559,8 +561,9 @@ fn read_unsigned(xs: &mut Xstate, n: usize, bo: Byteorder) -> Xresult {
         return Err(Xerr::IntegerOverflow);
     }
     let x = s.to_uint(bo) as Xint;
-    move_offset_checked(xs, s.end())?;
-    xs.push_data(Cell::from(x).with_tags(bitstr_num_tags(s, bo)))
+    let end = s.end();
+    xs.push_data(Cell::from(x).with_tags(bitstr_num_tags(s, bo)))?;
+    move_offset_checked(xs, end)
 }
 
 fn read_signed(xs: &mut Xstate, n: usize, bo: Byteorder) -> Xresult {
@@ -569,8 +572,9 @@ fn read_signed(xs: &mut Xstate, n: usize, bo: Byteorder) -> Xresult {
         return Err(Xerr::IntegerOverflow);
     }
     let x = s.to_int(bo);
-    move_offset_checked(xs, s.end())?;
-    xs.push_data(Cell::from(x).with_tags(bitstr_num_tags(s, bo)))
+    let end = s.end();
+    xs.push_data(Cell::from(x).with_tags(bitstr_num_tags(s, bo)))?;
+    move_offset_checked(xs, end)
 }
 
 fn read_signed_n(xs: &mut Xstate, n: usize) -> Xresult {
@@ -595,8 +599,9 @@ fn read_float(xs: &mut Xstate, n: usize, bo: Byteorder) -> Xresult {
         64 => s.to_f64(bo) as Xreal,
         n => return Err(float_len_err(n)),
     };
-    move_offset_checked(xs, s.end())?;
-    xs.push_data(Cell::from(val).with_tags(bitstr_num_tags(s, bo)))
+    let end = s.end();
+    xs.push_data(Cell::from(val).with_tags(bitstr_num_tags(s, bo)))?;
+    move_offset_checked(xs, end)
 }
 
 fn bitstr_num_tags(bs: Bitstr, bo: Byteorder) -> Xmap {
@@ -613,7 +618,6 @@ fn nulbytestr_read(xs: &mut Xstate) -> Xresult1<Bitstr> {
     if !s.is_bytestr() {
         return Err(Xerr::ToBytestrError(s));
     }
-    let start = s.start();
     let mut len = 0;
     for (x, n) in s.iter8() {
         len += n as usize;
@@ -622,13 +626,14 @@ fn nulbytestr_read(xs: &mut Xstate) -> Xresult1<Bitstr> {
         }
     }
     let ss = s.read(len).unwrap();
-    move_offset_checked(xs, start + len)?;
     Ok(ss)
 }
 
 fn nulbytestr_word(xs: &mut Xstate) -> Xresult {
     let bs = nulbytestr_read(xs)?;
-    xs.push_data(Cell::from(bs))
+    let end = bs.end();
+    xs.push_data(Cell::from(bs))?;
+    move_offset_checked(xs, end)
 }
 
 fn cstr_word(xs: &mut Xstate) -> Xresult {
@@ -641,7 +646,8 @@ fn cstr_word(xs: &mut Xstate) -> Xresult {
         let c = char::from_u32(x as u32).unwrap();
         s.push(c)
     }
-    xs.push_data(Cell::from(s))
+    xs.push_data(Cell::from(s))?;
+    move_offset_checked(xs, bs.end())
 }
 
 fn word_write(xs: &mut Xstate) -> Xresult {
